@@ -21,6 +21,13 @@ structure DecLit where
   e : Int
   deriving DecidableEq, Repr
 
+/-- the literal as the parser reads it: an integer literal when there is neither a fraction nor an exponent
+(`Display for f64` prints `1` for `1.0`), else a real literal -/
+def DecLit.lit (d : DecLit) : Expr := if d.e = 0 then .int d.m else .real d.m d.e
+
+/-- the literal as the lexer reads it -/
+def DecLit.tok (d : DecLit) : Spec.OQ2.Tok := if d.e = 0 then .int d.m else .real d.m d.e
+
 /-- the value a printed number reads back as -/
 def DecLit.value [Angle P] (d : DecLit) : P :=
   if d.neg then Angle.neg (Angle.ofDec d.m d.e) else Angle.ofDec d.m d.e
@@ -49,7 +56,7 @@ def NumRoundTrip (P : Type) [Angle P] (sh : P → DecLit) (vs : List P) : Prop :
 def Arg.toExpr (sh : P → DecLit) : Arg P → Expr
   | .lit n => .int n
   | .pi => .pi
-  | .val v => if (sh v).neg then .neg (.real (sh v).m (sh v).e) else .real (sh v).m (sh v).e
+  | .val v => if (sh v).neg then .neg (sh v).lit else (sh v).lit
   | .name s _ => .ident s
   | .neg e => .neg (e.toExpr sh)
   | .div a b => .div (a.toExpr sh) (b.toExpr sh)
@@ -80,5 +87,69 @@ def Line.toStmtV (sh : P → DecLit) : Line P → Option (Option Stmt)
 def toProgramV (sh : P → DecLit) : List (Line P) → Option Program
   | .version :: .includeLib :: rest => (rest.mapM (Line.toStmtV sh)).map fun l => ⟨true, l.filterMap id⟩
   | _ => none
+
+/-! ### the token sequence of the exported text
+
+`specToks sh ls` is the token sequence (in the vocabulary of the reference lexer `Spec.OQ2.lex`) that the text
+`Circuit::open_qasm()` writes must lex to: the same sequence as the model's `programToks` (what correspondence (A)
+compares, numbers by value), with every displayed number spelled as its printed literal `sh v`. -/
+
+def DecLit.toks (d : DecLit) : List Spec.OQ2.Tok := (if d.neg then [Spec.OQ2.Tok.sym "-"] else []) ++ [d.tok]
+
+def Arg.specToks (sh : P → DecLit) : Arg P → List Spec.OQ2.Tok
+  | .lit n => [.int n]
+  | .pi => [.id "pi"]
+  | .val v => (sh v).toks
+  | .name s _ => [.id s]
+  | .neg e => .sym "-" :: e.specToks sh
+  | .div a b => a.specToks sh ++ .sym "/" :: b.specToks sh
+
+def QRef.specToks : QRef → List Spec.OQ2.Tok
+  | .reg r => [.id r]
+  | .bit r i => [.id r, .sym "[", .int i, .sym "]"]
+  | .raw k => [.int k]
+
+def commaSepT (xs : List (List Spec.OQ2.Tok)) : List Spec.OQ2.Tok :=
+  match xs with
+  | [] => []
+  | x :: rest => x ++ (rest.map (fun y => Spec.OQ2.Tok.sym "," :: y)).flatten
+
+def App.specToks (sh : P → DecLit) (a : App P) : List Spec.OQ2.Tok :=
+  .id a.name ::
+    ((if a.args.isEmpty then [] else
+      .sym "(" :: commaSepT (a.args.map (Arg.specToks sh)) ++ [.sym ")"]) ++
+     commaSepT (a.qargs.map QRef.specToks))
+
+def Chunk.specToks (sh : P → DecLit) (c : Chunk P) : List Spec.OQ2.Tok :=
+  (c.conds.map fun k => [Spec.OQ2.Tok.id "if", .sym "(", .id "b", .sym "==", .int k, .sym ")"]).flatten ++
+    (match c.app with
+     | some a => a.specToks sh
+     | none => [])
+
+def Line.specToks (sh : P → DecLit) : Line P → List Spec.OQ2.Tok
+  | .version => [.id "OPENQASM", .real 20 (-1), .sym ";"]
+  | .includeLib => [.id "include", .str "qelib1.inc", .sym ";"]
+  | .qreg n => [.id "qreg", .id "q", .sym "[", .int n, .sym "]", .sym ";"]
+  | .creg n => [.id "creg", .id "b", .sym "[", .int n, .sym "]", .sym ";"]
+  | .gate c => c.specToks sh ++ [.sym ";"]
+  | .measure q c => .id "measure" :: q.specToks ++ .sym "->" :: c.specToks ++ [.sym ";"]
+  | .reset q => .id "reset" :: q.specToks ++ [.sym ";"]
+  | .barrier qs => .id "barrier" :: commaSepT (qs.map QRef.specToks) ++ [.sym ";"]
+
+def specToks (sh : P → DecLit) (ls : List (Line P)) : List Spec.OQ2.Tok := (ls.map (Line.specToks sh)).flatten
+
+/-- ASSUMPTION (checked on every generated case by correspondence (A), which compares exactly this token sequence,
+numbers by value): the text lexes to the token sequence of the model's lines -/
+def LexesAsPrinted (sh : P → DecLit) (ls : List (Line P)) (text : String) : Prop :=
+  lex text = .ok (specToks sh ls)
+
+/-- ASSUMPTION (kernel-checked on an instance of every statement shape and of every argument shape of the generated
+template table, `Props/C11.parses_as_printed_samples`; checked on every generated case by (B)): the reference parser
+reads the token sequence of the lines as the program `toProgramV`.  The shapes are: the two header statements;
+`qreg q[n]`, `creg b[n]`; `name args? q[i], …` with `args` a parenthesised comma-separated list of expressions of the
+shapes `x`, `-x`, `x/k`, `-x/k` (`x` a literal with an optional sign, or `pi`; `k` an integer literal); the same
+after `if (b == k)`; `measure a -> c`; `reset a`; `barrier a, …` (`a`, `c` a register or an indexed register). -/
+def ParsesAsPrinted (sh : P → DecLit) (ls : List (Line P)) : Prop :=
+  ∀ p, toProgramV sh ls = some p → parse (specToks sh ls) = .ok p
 
 end Q1t.OpenQasm
